@@ -96,6 +96,7 @@ type Node struct {
 	BusyKeyspaces         map[string]bool // keyspaces for which a USE is answered OVERLOADED
 	SilentControlQueries  int             // that many system.local / system.peers queries get no answer at all
 	DropNewConnsAtStartup int             // that many new connections are reset when their STARTUP arrives
+	StallSndBuf           int             // > 0 while the node is stalled hard (StallHard): it does not read from its sockets either
 	Restarts              int
 	// RespCompress: 0 follow the request's connection setting for every frame, 1 never, 2 per-frame choice
 	RespCompress  int
@@ -157,8 +158,36 @@ func (n *Node) supports(v primitive.ProtocolVersion) bool {
 func (n *Node) String() string { return n.Name }
 
 // OnConnect is called from the dial hook (on the dialling SUT task).
+// StallHard: the node answers nothing and, unlike a plain stall, also stops reading from its
+// sockets: the proxy can write sndbuf more bytes per connection, then its writes block.
+func (n *Node) StallHard(sndbuf int) {
+	n.Stalled = true
+	n.StallSndBuf = sndbuf
+	for _, c := range n.LiveConns() {
+		if c.Link != nil {
+			c.Link.SetNoRead(true, sndbuf)
+		}
+	}
+	n.w.Logf("node %s: stops reading (send buffer %d)", n, sndbuf)
+}
+
+func (n *Node) readAgain() {
+	if n.StallSndBuf == 0 {
+		return
+	}
+	n.StallSndBuf = 0
+	for _, c := range n.Conns {
+		if c.Link != nil && c.Link.NoRead {
+			c.Link.SetNoRead(false, 0)
+		}
+	}
+}
+
 func (n *Node) newConn(l *simnet.Link) *BackendConn {
 	n.ConnsSeen++
+	if n.Stalled && n.StallSndBuf > 0 && l != nil {
+		l.SetNoRead(true, n.StallSndBuf)
+	}
 	c := &BackendConn{Node: n, Link: l, ID: n.w.nextConnID(), Outstanding: map[int16]bool{}}
 	n.Conns = append(n.Conns, c)
 	n.DialTimes = append(n.DialTimes, n.w.Now())
@@ -882,6 +911,7 @@ func (n *Node) Crash() {
 // Unstall ends a stall: the frames that arrived meanwhile are processed now.
 func (n *Node) Unstall() {
 	n.Stalled = false
+	n.readAgain()
 	n.w.Logf("node %s: stall ends", n)
 	for _, c := range append([]*BackendConn(nil), n.Conns...) {
 		q := c.stalled
@@ -899,6 +929,7 @@ func (n *Node) Unstall() {
 func (n *Node) Restart() {
 	n.Up = true
 	n.Stalled = false
+	n.readAgain()
 	n.Blackhole = false
 	n.Prepared = map[string]string{}
 	n.Restarts++
